@@ -2,3 +2,4 @@ import CbGen.RangeTable
 import CbGen.Ladder
 import CbGen.FfiTable
 import CbGen.ErrClass
+import CbGen.Generic
